@@ -1,4 +1,6 @@
 """Driver helpers: make a public call on the real library, classify what happens."""
+import copy
+import json
 import os
 
 import numpy as np
@@ -9,11 +11,53 @@ from . import core, probe
 REFUSALS = (ValueError, TypeError, IndexError, NotImplementedError)
 
 
+_SIGS = None
+
+
+def _signatures():
+    global _SIGS
+    if _SIGS is None:
+        try:
+            with open(os.path.join(os.path.dirname(os.path.abspath(__file__)), 'signatures.json')) as f:
+                _SIGS = json.load(f)
+        except Exception:
+            _SIGS = {}
+    return _SIGS
+
+
+def positionalise(api, fn, args, kwargs):
+    """the same call with its keyword arguments passed positionally, in the parameter order recorded from the documented signatures
+    (vt/signatures.json; gaps filled with the recorded defaults): callers who pass optional arguments by position exist, and a change
+    that re-orders parameters only shows for them"""
+    sig = _signatures().get(api)
+    if not sig or not kwargs or getattr(fn, '__name__', None) != api.split('.')[-1] or api.startswith('models.'):
+        return args, kwargs
+    names = [n for n, _ in sig]
+    if any(k not in names for k in kwargs) or any(names.index(k) < len(args) for k in kwargs):
+        return args, kwargs
+    last = max(names.index(k) for k in kwargs)
+    new = list(args)
+    for i in range(len(args), last + 1):
+        n, d = sig[i]
+        if n in kwargs:
+            new.append(kwargs[n])
+        elif 'default' in d and 'unrepresentable' not in d:
+            new.append(np.inf if d['default'] == 'inf' else copy.copy(d['default']))
+        else:
+            return args, kwargs
+    return tuple(new), {}
+
+
 def call(api, fn, *args, prop=None, tags=(), detail=None, refusals=(), refusal_pred=None, **kwargs):
     """Run fn(*args, **kwargs) on an admissible input.  Returns (ok, result).  An exception escaping is a
     violation (`exception`) of `prop` unless its type is listed in `refusals` (a documented refusal for this
     input class)."""
     c = core.ctx()
+    if kwargs and c is not None and c.aux_rng is not None and c.aux_rng.random() < 0.25:
+        a2, k2 = positionalise(api, fn, args, kwargs)
+        if not k2 and a2 is not args:
+            c.events['called_positionally:' + api] += 1
+            args, kwargs = a2, k2
     try:
         r = fn(*args, **kwargs)
     except refusals as e:
